@@ -560,7 +560,7 @@ fn run_reloc(e: RunTimeEndian, bytes: &[u8], rels: &[RRel], ops: &[Op]) -> (Vec<
     }
     let tr = TraceReader::new(EndianRcSlice::new(rc.clone(), e), log.clone(), on.clone());
     let rr = RelocateReader::new(tr, MapReloc(Rc::new(map)));
-    let run = run_hist_probe(rr, &rc, ops, None, None, false, Some(&on));
+    let run = run_hist_probe(rr, &rc, ops, None, None, Some(&on));
     let l = log.borrow().clone();
     (run.trace, l)
 }
@@ -578,7 +578,7 @@ fn handle_rr_hist(a: &[&str]) -> Option<String> {
     let ptrace = match &applied {
         Ok(b) => {
             let rc: Rc<[u8]> = Rc::from(&b[..]);
-            Ok(run_hist(EndianRcSlice::new(rc.clone(), e), &rc, &ops, None, None, false).trace)
+            Ok(run_hist(EndianRcSlice::new(rc.clone(), e), &rc, &ops, None, None).trace)
         }
         Err(x) => Err(format!("A:{x}")),
     };
